@@ -109,3 +109,13 @@ Example C05_examples :
   fst (engine_execute no_sigops (mkExecInput [] [x05;x01;x02;x03;x04;x05; x8b] 0 false false 0 0 0)) = VErr /\
   fst (engine_execute no_sigops (mkExecInput [] [x05;x01;x02;x03;x04;x05; x8b] 16384 false false 0 0 0)) = VOk.
 Proof. vm_compute. repeat split; reflexivity. Qed.
+
+(** dispatch: lengths and handlers of all 256 opcodes, against the table regenerated from the Go source *)
+From GoBT Require Import gen.OpTable proofs.DispatchProofs.
+Theorem C05_dispatch_ok : forall v name len h, In (v, name, len, h) op_table ->
+  len = op_length v /\ h = model_handler v.
+Proof. exact dispatch_ok. Qed.
+Print Assumptions C05_dispatch_ok.
+Theorem C05_dispatch_table_complete : length op_table = 256 /\ values_ok op_table = true.
+Proof. destruct dispatch_table_ok as (H1 & H2 & _). auto. Qed.
+Print Assumptions C05_dispatch_table_complete.
